@@ -14,31 +14,31 @@ TECHNIQUE = "static analysis: panic-site inventory over the resolved call graph 
 
 P = "mpd_protocol::"
 AUDITED = {
-    P + "parser::field_value|call:core::ops::index::Index::index": (
+    "field_value|call:Index::index": (
         1, "&i[1..] directly after a successful streaming take_until(\"\\n\"): the remaining input starts with the newline, so it has at least one byte"),
-    P + "response::ResponseBuilder::parse|assert:overflow:Sub(_,_)": (
+    "ResponseBuilder::parse|assert:overflow:Sub(_,_)": (
         2, "src.len() - remaining.len(): nom returns a suffix of its input; msg.len() - (data_length + 1): a binary component spans header + data_length bytes + newline"),
-    P + "response::ResponseBuilder::parse|assert:overflow:Add(_,1_usize)": (
+    "ResponseBuilder::parse|assert:overflow:Add(_,1_usize)": (
         1, "data_length + 1 where data_length bytes have actually been received and are held in memory"),
-    P + "response::ResponseBuilder::parse|call:bytes::bytes_mut::BytesMut::split_to": (
+    "ResponseBuilder::parse|call:BytesMut::split_to": (
         1, "msg_end = src.len() - remaining.len() <= src.len()"),
-    P + "response::ResponseBuilder::parse|call:bytes::buf::buf_impl::Buf::advance": (
+    "ResponseBuilder::parse|call:Buf::advance": (
         1, "advance by msg.len() - (data_length + 1) <= msg.len()"),
-    P + "connection::read_to_buffer|call:core::ops::index::IndexMut::index_mut": (
+    "read_to_buffer|call:IndexMut::index_mut": (
         1, "&mut buf[*total..] with total <= buf.len() (the buffer is doubled as soon as total reaches its length)"),
-    P + "connection::read_to_buffer|call:core::ops::index::Index::index": (
+    "read_to_buffer|call:Index::index": (
         1, "&buf[..*total] with total <= buf.len()"),
-    P + "connection::read_to_buffer|assert:overflow:Add(_,_)": (
+    "read_to_buffer|assert:overflow:Add(_,_)": (
         1, "*total += read with read <= buf.len() - total"),
-    P + "connection::read_to_buffer|assert:overflow:Mul(_,2_usize)": (
+    "read_to_buffer|assert:overflow:Mul(_,2_usize)": (
         1, "buf.len() * 2: the buffer is held in memory, its length is far below usize::MAX / 2"),
-    P + "connection::read_to_buffer|call:bytes::bytes_mut::BytesMut::resize": (
+    "read_to_buffer|call:BytesMut::resize": (
         1, "doubling of an in-memory buffer (allocation failure is out of scope)"),
-    P + "connection::Connection::connect|call:bytes::bytes_mut::BytesMut::zeroed": (1, "constant capacity 4096"),
-    P + "connection::AsyncConnection::connect|call:bytes::bytes_mut::BytesMut::with_capacity": (1, "constant capacity 4096"),
-    P + "connection::Connection::receive|call:bytes::bytes_mut::BytesMut::split_off": (
+    "Connection::connect|call:BytesMut::zeroed": (1, "constant capacity 4096"),
+    "AsyncConnection::connect|call:BytesMut::with_capacity": (1, "constant capacity 4096"),
+    "Connection::receive|call:BytesMut::split_off": (
         1, "split_off(total_received) with total_received <= recv_buf.len() (invariant of read_to_buffer)"),
-    P + "connection::Connection::receive|call:bytes::bytes_mut::BytesMut::resize": (
+    "Connection::receive|call:BytesMut::resize": (
         1, "restores the length the buffer had at the start of the iteration"),
 }
 
